@@ -7,6 +7,7 @@
 // mutex and thread start/join/hand-off.
 #include "../core/seams.h"
 #include "../core/driver.h"
+#include "../core/leakreport.h"
 #include "CppUTest/MemoryLeakDetector.h"
 #include "CppUTest/MemoryLeakWarningPlugin.h"
 #include "CppUTest/TestMemoryAllocator.h"
@@ -550,10 +551,9 @@ struct Engine : public vf::Engine {
             if (total != want.size()) r.fail("C10", "outstanding_set", sg("what", total < want.size() ? "blocks lost" : "phantom blocks"), sfmt("detector holds %zu blocks, the threads hold %zu", total, want.size()));
             else if (r.viols.empty() && total <= 12) {
                 det->startChecking(); det->enable();
-                Str rep2 = det->report(mem_leak_period_all); Vec<Str> got; Vec<unsigned> nums; size_t pos = 0;
-                while ((pos = rep2.find("Alloc num (", pos)) != Str::npos) { unsigned num = 0; unsigned long sz = 0; const char* p = rep2.c_str() + pos; const char* ty = strstr(p, ". Type: \""); const char* te = ty ? strchr(ty + 9, '"') : 0;
-                    if (ty && te && sscanf(p, "Alloc num (%u) Leak size: %lu", &num, &sz) == 2) { got.push_back(sfmt("%lu|%s", sz, Str(ty + 9, (size_t)(te - ty - 9)).c_str())); nums.push_back(num); } pos += 11; }
-                if (rep2.find("Too many memory leaks") == Str::npos) {
+                Str rep2 = det->report(mem_leak_period_all); Vec<Str> got; Vec<unsigned> nums;
+                { Vec<LeakEntry> ents; long stated = -1; parseLeakReport(rep2, ents, stated); for (size_t q = 0; q < ents.size(); q++) if (ents[q].complete) { got.push_back(sfmt("%lu|%s", ents[q].size, ents[q].type.c_str())); nums.push_back(ents[q].num); } }
+                if (rep2.size() + 400 < (size_t)SimpleStringBuffer::SIMPLE_STRING_BUFFER_LEN) {      // (the report had room for everything)
                     std::sort(want.begin(), want.end()); std::sort(got.begin(), got.end()); std::sort(nums.begin(), nums.end());
                     if (want != got) r.fail("C10", "outstanding_set", sg("what", "report differs from the union of the threads' blocks"), sfmt("%zu reported, %zu held", got.size(), want.size()));
                     for (size_t k = 1; k < nums.size(); k++) if (nums[k] == nums[k - 1]) { r.fail("C10", "allocation_numbers", sfmt("allocation number %u was given out twice", nums[k])); break; }
